@@ -39,6 +39,7 @@ type acceptResult struct {
 type Listener struct {
 	s          *Netceptor
 	pc         PacketConner
+	tr         *quic.Transport
 	ql         *quic.Listener
 	acceptChan chan *acceptResult
 	doneChan   chan struct{}
@@ -115,7 +116,7 @@ func (s *Netceptor) listen(ctx context.Context, service string, tlscfg *tls.Conf
 	}
 	statelessResetKey := make([]byte, 32)
 	rand.Read(statelessResetKey)
-	tr := quic.Transport{
+	tr := &quic.Transport{
 		Conn:              pc,
 		StatelessResetKey: (*quic.StatelessResetKey)(statelessResetKey),
 	}
@@ -141,6 +142,7 @@ func (s *Netceptor) listen(ctx context.Context, service string, tlscfg *tls.Conf
 	li := &Listener{
 		s:          s,
 		pc:         pc,
+		tr:         tr,
 		ql:         ql,
 		acceptChan: make(chan *acceptResult),
 		doneChan:   doneChan,
@@ -300,6 +302,11 @@ func (li *Listener) Close() error {
 	// listener down from the read loop, and the two shutdowns wait for each other forever
 	qerr := li.ql.Close()
 	perr := li.pc.Close()
+	if li.tr != nil {
+		// wait until the transport has noticed and has let go of the socket's address: a new
+		// listener on the same service must not find it still in use
+		_ = li.tr.Close()
+	}
 	if qerr != nil {
 		return qerr
 	}
